@@ -116,9 +116,22 @@ def twin_run(kind_name, ops, seed, scratch):
                     tell(p)
             elif op[0] == "tell_pending" and kind.rand_point:
                 p = kind.rand_point(random.Random(op[1]))
-                if L.canon(p) not in told:
-                    ds.tell_pending(p)
+                if L.canon(p) in told and op[1] % 3 == 0 and told:
+                    pass  # marking an already told point pending again (a retry): wrapper and plain must agree
+                elif op[1] % 5 == 0 and told:
+                    cp = list(told)[op[1] % len(told)]
+                    p = next((q for q in list(ds.extra_data) if L.canon(q) == cp), p)
+                try:
                     plain.tell_pending(p)
+                except Exception as e:
+                    # e.g. LearnerND refuses to mark a told point pending: the wrapper must refuse alike
+                    try:
+                        ds.tell_pending(p)
+                    except Exception as e2:
+                        if type(e2) is type(e):
+                            return None  # both refuse; states may be half-updated alike, stop this history
+                    return ("wrapper_exception_mismatch", f"op {i} tell_pending({p!r}): plain raised {e!r}, wrapper did not")
+                ds.tell_pending(p)
             elif op[0] == "remove":
                 ds.remove_unfinished()
                 plain.remove_unfinished()
@@ -129,7 +142,8 @@ def twin_run(kind_name, ops, seed, scratch):
                 ps = [outstanding[(op[1] + j) % len(outstanding)] for j in range(k)]
                 ps = list({L.canon(p): p for p in ps}.values())
                 rs = [full(p) for p in ps]
-                ds.tell_many(ps, rs)
+                lazy = op[1] % 2 == 0  # one-shot iterables are legal arguments of tell_many
+                ds.tell_many(iter(ps) if lazy else ps, (r for r in rs) if lazy else rs)
                 plain.tell_many(ps, [pick(r) for r in rs])
                 for p, r in zip(ps, rs):
                     told[L.canon(p)] = r
@@ -211,10 +225,12 @@ def _plain_also_fails(kind, ops, seed):
 
 
 def gen_ops(seed, kn, nops):
-    """C18 quantifies over ask/tell interleavings: batched tells are not routed through the wrapper's
-    own code (BaseLearner.tell_many loops over tell, while e.g. Learner1D.tell_many has a separate batch
-    path whose loss normalisation legitimately differs, see C11), so they are excluded here."""
-    return [op for op in L.gen_ops(random.Random(seed), L.KINDS[kn], nops) if op[0] != "tell_many_asked"]
+    """Batched tells go through BaseLearner.tell_many of the wrapper (a loop over tell); for Learner1D the
+    unwrapped learner's own tell_many has a separate batch path whose loss normalisation legitimately differs
+    (see C11), so batched tells are compared for every wrapped kind except Learner1D and AverageLearner1D (which has its own
+    tell_many as well)."""
+    return [op for op in L.gen_ops(random.Random(seed), L.KINDS[kn], nops)
+            if op[0] != "tell_many_asked" or not (kn.startswith("l1d") or kn == "avg1d")]
 
 
 def run(ctx):
